@@ -1101,6 +1101,35 @@ def replay(ctx, data):
         want = [(i, o) for i, o in want if ("S__(%d," % i) in case["input"]]
         print("records:", list(G.RECORDS))
         return list(G.RECORDS) == want
+    if isinstance(case, dict) and "config" in case and "form" not in case and "input" in case:
+        # the `% for` rewrite in one loop configuration (streams corr.for_rewrite / oracle.for_rewrite)
+        from mako.template import Template
+        cfg, src = case["config"], case["input"]
+        try:
+            t = Template(src, enable_loop=(cfg == "on"))
+        except Exception as ex:      # noqa: BLE001
+            print("compile raised", type(ex).__name__, ex)
+            return False
+        mentions = bool(re.search(r"\bloop\b", re.sub(r"<%page[^>]*>", "", src)))
+        impl = "__M_loop._enter" in t.code
+        model = ask_many(ctx, ["names forrewrite %d %d" % (cfg != "off", mentions)])[0] == "1"
+        print("rewritten: code=%s model=%s" % (impl, model))
+        ok = impl == model
+        if cfg == "off":
+            # with the loop context disabled `loop` is an ordinary name
+            data = {} if re.search(r"% for loop in", src) else {"loop": "CTXVAL"}
+            try:
+                out = t.render(**data)
+                print("rendered", repr(out[:80]))
+                if "${loop}" in src and data:
+                    ok = ok and "CTXVAL" in out
+            except TypeError as ex:
+                print("raised", type(ex).__name__, ex)
+                ok = ok and "% for i in loop" in src      # iterating the context's string value is not the point
+            except Exception as ex:      # noqa: BLE001
+                print("raised", type(ex).__name__, ex)
+                ok = False
+        return ok
     if isinstance(case, dict) and "form" in case and "config" in case:
         from mako import exceptions as X
         c = Case(case, case["input"], {}, False, case["config"] == "loop-on", "reserved")
